@@ -1,16 +1,555 @@
 package main
 
+// Layer (ii): System.Runtime.CheckWitness executed inside contracts deployed on a pkg/neotest chain.
+//
+// Four copies of one hand-assembled proxy contract are deployed (P0 without groups, P1 group g1, P2 groups
+// g1+g2, P3 group g2). Methods:
+//
+//	cw(h)                         -> System.Runtime.CheckWitness(h)
+//	call(target, method, flags, args) -> System.Contract.Call
+//	dyn(script, flags, args)      -> System.Runtime.LoadScript
+//	onNEP17Payment(from, amount, data): if data != null { Notify("w", [CheckWitness(data)]) }
+//
+// A cell is a call chain  entry script -> hop1 -> ... -> hopN (N <= 3), every hop a contract, a dynamic
+// script, or (last hop only) native GAS calling onNEP17Payment of a proxy (GAS.transfer of amount 0 sent by
+// the previous frame), the call flags of every hop, a signer list and the checked hash. The cell is executed
+// either in a test VM of the chain (any signer list) or as a real signed transaction in a new block
+// (signers = validator + funded accounts). The model gets the frames the harness derives from the chain
+// description alone.
+
 import (
+	"errors"
+	"fmt"
+	"strings"
+	"testing"
+
+	"github.com/nspcc-dev/neo-go/pkg/core"
+	"github.com/nspcc-dev/neo-go/pkg/core/native/nativenames"
+	"github.com/nspcc-dev/neo-go/pkg/core/state"
+	"github.com/nspcc-dev/neo-go/pkg/core/transaction"
+	"github.com/nspcc-dev/neo-go/pkg/crypto/hash"
+	"github.com/nspcc-dev/neo-go/pkg/crypto/keys"
+	"github.com/nspcc-dev/neo-go/pkg/io"
+	"github.com/nspcc-dev/neo-go/pkg/neotest"
+	"github.com/nspcc-dev/neo-go/pkg/neotest/chain"
+	"github.com/nspcc-dev/neo-go/pkg/smartcontract"
+	"github.com/nspcc-dev/neo-go/pkg/smartcontract/callflag"
+	"github.com/nspcc-dev/neo-go/pkg/smartcontract/manifest"
+	"github.com/nspcc-dev/neo-go/pkg/smartcontract/nef"
+	"github.com/nspcc-dev/neo-go/pkg/smartcontract/trigger"
+	"github.com/nspcc-dev/neo-go/pkg/util"
+	"github.com/nspcc-dev/neo-go/pkg/vm/emit"
+	"github.com/nspcc-dev/neo-go/pkg/vm/opcode"
+	"github.com/nspcc-dev/neo-go/pkg/vm/stackitem"
+	"github.com/nspcc-dev/neo-go/pkg/vm/vmstate"
+	"github.com/nspcc-dev/neo-go/pkg/wallet"
+	"go.uber.org/zap"
+
 	"verif/harness/internal/hx"
 	"verif/harness/internal/prng"
 )
 
 const (
-	chainQuick    = 0
-	chainThorough = 0
+	chainQuick    = 3000
+	chainThorough = 60000
 )
 
-type chainState struct{}
+// ---- testing.TB shim --------------------------------------------------------
 
-func newChainState() (*chainState, error)                          { return &chainState{}, nil }
-func runChainCase(o *hx.Out, k int, r *prng.R, ch *chainState) {}
+type tbFail struct{ msg string }
+
+type tb struct {
+	testing.TB
+	cleanups []func()
+	lastErr  string
+}
+
+func (t *tb) Helper()                          {}
+func (t *tb) Name() string                     { return "witness-harness" }
+func (t *tb) Logf(string, ...any)              {}
+func (t *tb) Log(...any)                       {}
+func (t *tb) Errorf(f string, a ...any)        { t.lastErr = fmt.Sprintf(f, a...) }
+func (t *tb) Error(a ...any)                   { t.lastErr = fmt.Sprint(a...) }
+func (t *tb) Fatalf(f string, a ...any)        { panic(tbFail{fmt.Sprintf(f, a...)}) }
+func (t *tb) Fatal(a ...any)                   { panic(tbFail{fmt.Sprint(a...)}) }
+func (t *tb) FailNow()                         { panic(tbFail{t.lastErr}) }
+func (t *tb) Fail()                            {}
+func (t *tb) Failed() bool                     { return t.lastErr != "" }
+func (t *tb) Cleanup(f func())                 { t.cleanups = append(t.cleanups, f) }
+func (t *tb) Setenv(string, string)            {}
+func (t *tb) Skip(...any)                      {}
+func (t *tb) Skipf(string, ...any)             {}
+func (t *tb) SkipNow()                         {}
+func (t *tb) Skipped() bool                    { return false }
+func (t *tb) TempDir() string                  { return "/tmp/witness-harness" }
+
+// ---- chain state -----------------------------------------------------------------
+
+type proxy struct {
+	hash   util.Uint160
+	groups []*keys.PublicKey
+}
+
+type chainState struct {
+	t        *tb
+	bc       *core.Blockchain
+	e        *neotest.Executor
+	proxies  []proxy
+	gas      util.Uint160
+	accs     []neotest.Signer // funded single-signature accounts
+	u        *universe
+	accounts []util.Uint160 // accounts signers are drawn from in test-VM mode
+}
+
+func groupPriv(i int) *keys.PrivateKey {
+	b := make([]byte, 32)
+	b[31] = byte(i)
+	b[0] = 0x11
+	p, err := keys.NewPrivateKeyFromBytes(b)
+	if err != nil {
+		panic(err)
+	}
+	return p
+}
+
+func accountPriv(i int) *keys.PrivateKey {
+	b := make([]byte, 32)
+	b[31] = byte(i)
+	b[0] = 0x22
+	p, err := keys.NewPrivateKeyFromBytes(b)
+	if err != nil {
+		panic(err)
+	}
+	return p
+}
+
+// proxyContract assembles the NEF and manifest of one proxy.
+func proxyContract(sender util.Uint160, name string, groupIdx []int) *neotest.Contract {
+	w := io.NewBufBinWriter()
+	offCW := w.Len()
+	emit.Syscall(w.BinWriter, "System.Runtime.CheckWitness")
+	emit.Opcodes(w.BinWriter, opcode.RET)
+	offCall := w.Len()
+	emit.Syscall(w.BinWriter, "System.Contract.Call")
+	emit.Opcodes(w.BinWriter, opcode.RET)
+	offDyn := w.Len()
+	emit.Syscall(w.BinWriter, "System.Runtime.LoadScript")
+	emit.Opcodes(w.BinWriter, opcode.RET)
+	offPay := w.Len()
+	emit.Opcodes(w.BinWriter, opcode.DROP, opcode.DROP, opcode.DUP, opcode.ISNULL)
+	emit.Instruction(w.BinWriter, opcode.JMPIFNOT, []byte{4})
+	emit.Opcodes(w.BinWriter, opcode.DROP, opcode.RET)
+	emit.Syscall(w.BinWriter, "System.Runtime.CheckWitness")
+	emit.Opcodes(w.BinWriter, opcode.PUSH1, opcode.PACK)
+	emit.String(w.BinWriter, "w")
+	emit.Syscall(w.BinWriter, "System.Runtime.Notify")
+	emit.Opcodes(w.BinWriter, opcode.RET)
+	ne, err := nef.NewFile(w.Bytes())
+	if err != nil {
+		panic(err)
+	}
+	m := manifest.NewManifest(name)
+	par := func(n string, t smartcontract.ParamType) manifest.Parameter { return manifest.NewParameter(n, t) }
+	m.ABI.Methods = []manifest.Method{
+		{Name: "cw", Offset: offCW, Parameters: []manifest.Parameter{par("h", smartcontract.ByteArrayType)}, ReturnType: smartcontract.BoolType},
+		{Name: "call", Offset: offCall, Parameters: []manifest.Parameter{par("target", smartcontract.Hash160Type), par("method", smartcontract.StringType),
+			par("flags", smartcontract.IntegerType), par("args", smartcontract.ArrayType)}, ReturnType: smartcontract.AnyType},
+		{Name: "dyn", Offset: offDyn, Parameters: []manifest.Parameter{par("script", smartcontract.ByteArrayType), par("flags", smartcontract.IntegerType),
+			par("args", smartcontract.ArrayType)}, ReturnType: smartcontract.AnyType},
+		{Name: manifest.MethodOnNEP17Payment, Offset: offPay, Parameters: []manifest.Parameter{par("from", smartcontract.AnyType),
+			par("amount", smartcontract.IntegerType), par("data", smartcontract.AnyType)}, ReturnType: smartcontract.VoidType},
+	}
+	m.ABI.Events = []manifest.Event{{Name: "w", Parameters: []manifest.Parameter{par("r", smartcontract.BoolType)}}}
+	m.Permissions = []manifest.Permission{*manifest.NewPermission(manifest.PermissionWildcard)}
+	h := state.CreateContractHash(sender, ne.Checksum, name)
+	for _, gi := range groupIdx {
+		p := groupPriv(gi)
+		m.Groups = append(m.Groups, manifest.Group{PublicKey: p.PublicKey(), Signature: p.Sign(h.BytesBE())})
+	}
+	return &neotest.Contract{Hash: h, NEF: ne, Manifest: m}
+}
+
+func newChainState() (cs *chainState, err error) {
+	t := &tb{}
+	defer func() {
+		if r := recover(); r != nil {
+			err = fmt.Errorf("setup: %v", r)
+		}
+	}()
+	bc, validator := chain.NewSingleWithOptions(t, &chain.Options{Logger: zap.NewNop()})
+	e := neotest.NewExecutor(t, bc, validator, validator)
+	cs = &chainState{t: t, bc: bc, e: e, gas: e.NativeHash(t, nativenames.Gas)}
+	for i, gi := range [][]int{nil, {1}, {1, 2}, {2}} {
+		c := proxyContract(validator.ScriptHash(), fmt.Sprintf("proxy%d", i), gi)
+		e.DeployContract(t, c, nil)
+		p := proxy{hash: c.Hash}
+		for _, g := range gi {
+			p.groups = append(p.groups, groupPriv(g).PublicKey())
+		}
+		cs.proxies = append(cs.proxies, p)
+	}
+	// funded accounts with deterministic keys
+	for i := 1; i <= 3; i++ {
+		acc := wallet.NewAccountFromPrivateKey(accountPriv(i))
+		s := neotest.NewSingleSigner(acc)
+		tx := e.NewTx(t, []neotest.Signer{validator}, cs.gas, "transfer", validator.ScriptHash(), s.ScriptHash(), int64(1000_0000_0000), nil)
+		e.AddNewBlock(t, tx)
+		e.CheckHalt(t, tx.Hash())
+		cs.accs = append(cs.accs, s)
+	}
+	cs.u = &universe{keys: []*keys.PublicKey{groupPriv(1).PublicKey(), groupPriv(2).PublicKey(), groupPriv(3).PublicKey()}}
+	for _, p := range cs.proxies {
+		cs.u.hashes = append(cs.u.hashes, p.hash)
+	}
+	cs.u.hashes = append(cs.u.hashes, cs.gas)
+	for _, a := range cs.accs {
+		cs.accounts = append(cs.accounts, a.ScriptHash())
+	}
+	cs.accounts = append(cs.accounts, cs.u.hashes...)
+	return cs, nil
+}
+
+// ---- cells --------------------------------------------------------------------
+
+const (
+	hopContract = iota
+	hopDynamic
+	hopNative // GAS.transfer(prev, proxy, 0, h) -> proxy.onNEP17Payment ; last hop only
+)
+
+type hop struct {
+	kind  int
+	proxy int               // hopContract, hopNative
+	flags callflag.CallFlag // requested flags of the call that creates this hop
+}
+
+type chainCell struct {
+	hops    []hop
+	signers []signer
+	h       util.Uint160
+	realTx  bool
+	nAccs   int // realTx: number of funded accounts that sign after the validator
+}
+
+func checkScript(h util.Uint160) []byte {
+	w := io.NewBufBinWriter()
+	emit.Bytes(w.BinWriter, h.BytesBE())
+	emit.Syscall(w.BinWriter, "System.Runtime.CheckWitness")
+	emit.Opcodes(w.BinWriter, opcode.RET)
+	return w.Bytes()
+}
+
+// bodyScript: what a script frame (entry or dynamic script) at position k executes. Position 0 is the entry.
+func (cs *chainState) bodyScript(c *chainCell, k int) []byte {
+	if k == len(c.hops) {
+		return checkScript(c.h)
+	}
+	nx := c.hops[k]
+	w := io.NewBufBinWriter()
+	switch nx.kind {
+	case hopContract:
+		m, args := cs.bodyCall(c, k+1)
+		emit.AppCall(w.BinWriter, cs.proxies[nx.proxy].hash, m, nx.flags, args...)
+	case hopDynamic:
+		emit.Array(w.BinWriter)
+		emit.Int(w.BinWriter, int64(nx.flags))
+		emit.Bytes(w.BinWriter, cs.bodyScript(c, k+1))
+		emit.Syscall(w.BinWriter, "System.Runtime.LoadScript")
+	case hopNative:
+		// GAS.transfer(this script, proxy, 0, h)
+		emit.Bytes(w.BinWriter, c.h.BytesBE())
+		emit.Int(w.BinWriter, 0)
+		emit.Bytes(w.BinWriter, cs.proxies[nx.proxy].hash.BytesBE())
+		emit.Syscall(w.BinWriter, "System.Runtime.GetExecutingScriptHash")
+		emit.Int(w.BinWriter, 4)
+		emit.Opcodes(w.BinWriter, opcode.PACK)
+		emit.AppCallNoArgs(w.BinWriter, cs.gas, "transfer", nx.flags)
+	}
+	emit.Opcodes(w.BinWriter, opcode.RET)
+	return w.Bytes()
+}
+
+// bodyCall: the method and arguments with which the contract hop at position k (1-based) is entered.
+func (cs *chainState) bodyCall(c *chainCell, k int) (string, []any) {
+	if k == len(c.hops) {
+		return "cw", []any{c.h.BytesBE()}
+	}
+	me := cs.proxies[c.hops[k-1].proxy].hash
+	nx := c.hops[k]
+	switch nx.kind {
+	case hopContract:
+		m, args := cs.bodyCall(c, k+1)
+		return "call", []any{cs.proxies[nx.proxy].hash, m, int64(nx.flags), args}
+	case hopDynamic:
+		return "dyn", []any{cs.bodyScript(c, k+1), int64(nx.flags), []any{}}
+	default:
+		return "call", []any{cs.gas, "transfer", int64(nx.flags), []any{me, cs.proxies[nx.proxy].hash, int64(0), c.h.BytesBE()}}
+	}
+}
+
+// env derives the frames from the chain description.
+func (cs *chainState) env(c *chainCell, entry []byte) *env {
+	fr := []frame{{hash: hash.Hash160(entry), rs: true}}
+	flags := []callflag.CallFlag{callflag.All}
+	for k, hp := range c.hops {
+		prev := fr[len(fr)-1]
+		pf := flags[len(flags)-1]
+		switch hp.kind {
+		case hopContract:
+			f := pf & hp.flags
+			fr = append(fr, frame{hash: cs.proxies[hp.proxy].hash, caller: prev.hash, rs: f&callflag.ReadStates != 0})
+			flags = append(flags, f)
+		case hopDynamic:
+			f := pf & hp.flags & callflag.ReadOnly
+			fr = append(fr, frame{hash: hash.Hash160(cs.bodyScript(c, k+1)), caller: prev.hash, rs: f&callflag.ReadStates != 0})
+			flags = append(flags, f)
+		case hopNative:
+			f := pf & hp.flags
+			fr = append(fr, frame{hash: cs.gas, caller: prev.hash, rs: f&callflag.ReadStates != 0})
+			fr = append(fr, frame{hash: cs.proxies[hp.proxy].hash, caller: cs.gas, rs: f&callflag.ReadStates != 0})
+			flags = append(flags, f, f)
+		}
+	}
+	e := &env{}
+	for i := len(fr) - 1; i >= 0; i-- {
+		e.frames = append(e.frames, fr[i])
+	}
+	for _, p := range cs.proxies {
+		e.contracts = append(e.contracts, contractInfo{hash: p.hash, groups: p.groups})
+	}
+	e.contracts = append(e.contracts, contractInfo{hash: cs.gas})
+	return e
+}
+
+var finalFlags = []callflag.CallFlag{callflag.All, callflag.ReadOnly, callflag.AllowCall, callflag.NoneFlag, callflag.ReadStates,
+	callflag.WriteStates | callflag.AllowNotify, callflag.All &^ callflag.ReadStates}
+
+func (cs *chainState) genCell(r *prng.R) *chainCell {
+	c := &chainCell{}
+	n := []int{0, 1, 1, 2, 2, 2, 3, 3, 3}[r.Intn(9)]
+	native := n > 0 && r.Chance(1, 6)
+	for k := 0; k < n; k++ {
+		last := k == n-1
+		hp := hop{flags: callflag.All}
+		switch {
+		case last && native:
+			hp.kind = hopNative
+			hp.proxy = r.Intn(len(cs.proxies))
+			if r.Chance(1, 4) {
+				hp.flags = callflag.States | callflag.AllowCall | callflag.AllowNotify
+			}
+		case r.Chance(1, 4) && !native:
+			// a dynamic script drops the flags to ReadOnly, which a later GAS.transfer cannot live with
+			hp.kind = hopDynamic
+		default:
+			hp.kind = hopContract
+			hp.proxy = r.Intn(len(cs.proxies))
+		}
+		if hp.kind != hopNative {
+			switch {
+			case last:
+				hp.flags = finalFlags[r.Intn(len(finalFlags))]
+				if r.Chance(1, 2) {
+					hp.flags = callflag.All
+				}
+			case !native && r.Chance(1, 3):
+				hp.flags = callflag.ReadOnly
+			}
+		}
+		c.hops = append(c.hops, hp)
+	}
+	c.realTx = r.Chance(1, 6)
+	if c.realTx {
+		c.nAccs = r.Intn(3)
+		ids := []util.Uint160{cs.e.Validator.ScriptHash()}
+		for i := 0; i < c.nAccs; i++ {
+			ids = append(ids, cs.accs[i].ScriptHash())
+		}
+		for _, id := range ids {
+			s := genSigner(r, cs.u, []util.Uint160{id})
+			// a transaction that goes through block verification and storage must be decodable
+			if s.scopes&0x80 != 0 {
+				s.scopes = 0x80
+			}
+			s.scopes &= 0xf1
+			for i := range s.rules {
+				s.rules[i].action &= 1
+			}
+			c.signers = append(c.signers, s)
+		}
+	} else {
+		ns := []int{1, 1, 2, 2, 3}[r.Intn(5)]
+		for i := 0; i < ns; i++ {
+			c.signers = append(c.signers, genSigner(r, cs.u, cs.accounts))
+		}
+	}
+	switch {
+	case r.Chance(3, 5):
+		c.h = c.signers[r.Intn(len(c.signers))].account
+	case r.Chance(1, 2) && n > 0:
+		// a frame of the chain (the caller shortcut, or a contract that is not the caller)
+		hp := c.hops[r.Intn(n)]
+		switch hp.kind {
+		case hopContract:
+			c.h = cs.proxies[hp.proxy].hash
+		case hopNative:
+			c.h = cs.gas
+		default:
+			c.h = cs.accounts[r.Intn(len(cs.accounts))]
+		}
+	case r.Chance(1, 8):
+		c.h = util.Uint160{} // the calling hash of the entry script
+	default:
+		c.h = cs.accounts[r.Intn(len(cs.accounts))]
+	}
+	return c
+}
+
+func classifyFault(s string) string {
+	switch {
+	case strings.Contains(s, "missing ReadStates call flag"):
+		return "err:noreadstates"
+	case strings.Contains(s, "no valid signers"):
+		return "err:nosigners"
+	}
+	return "fault:" + strings.ReplaceAll(s, " ", "_")
+}
+
+func boolItem(it stackitem.Item) (string, error) {
+	if it == nil || it.Type() != stackitem.BooleanT {
+		return "", errors.New("not a boolean")
+	}
+	b, err := it.TryBool()
+	if err != nil {
+		return "", err
+	}
+	return fmt.Sprint(b), nil
+}
+
+// outcome turns the VM state, result stack and notifications into an observation.
+func (cs *chainState) outcome(c *chainCell, halted bool, fault string, stack []stackitem.Item, events []state.NotificationEvent) string {
+	if !halted {
+		return classifyFault(fault)
+	}
+	if len(stack) != 1 {
+		return fmt.Sprintf("bad-stack:%d", len(stack))
+	}
+	top, err := boolItem(stack[0])
+	if err != nil {
+		return "bad-result:" + stack[0].Type().String()
+	}
+	n := len(c.hops)
+	if n > 0 && c.hops[n-1].kind == hopNative {
+		if top != "true" {
+			return "transfer-failed"
+		}
+		var res []string
+		for _, ev := range events {
+			if ev.Name == "w" && ev.ScriptHash == cs.proxies[c.hops[n-1].proxy].hash {
+				arr := ev.Item.Value().([]stackitem.Item)
+				s, err := boolItem(arr[0])
+				if err != nil {
+					return "bad-event"
+				}
+				res = append(res, s)
+			}
+		}
+		if len(res) != 1 {
+			return fmt.Sprintf("events:%d", len(res))
+		}
+		return res[0]
+	}
+	return top
+}
+
+func (cs *chainState) runCell(c *chainCell, entry []byte) (obs string) {
+	cs.t.lastErr = ""
+	defer func() {
+		if r := recover(); r != nil {
+			if f, ok := r.(tbFail); ok {
+				obs = "harness-fail:" + strings.ReplaceAll(f.msg, " ", "_")
+				return
+			}
+			obs = "panic"
+		}
+	}()
+	if !c.realTx {
+		tx := transaction.New(entry, 0)
+		tx.Signers = realSigners(c.signers)
+		tx.ValidUntilBlock = cs.bc.BlockHeight() + 1
+		ic, err := cs.bc.GetTestVM(trigger.Application, tx, nil)
+		if err != nil {
+			return "harness-fail:testvm"
+		}
+		defer ic.Finalize()
+		ic.VM.LoadWithFlags(entry, callflag.All)
+		err = ic.VM.Run()
+		halted := err == nil && ic.VM.State() == vmstate.Halt
+		fault := ""
+		if err != nil {
+			fault = err.Error()
+		}
+		var stack []stackitem.Item
+		if halted {
+			stack = ic.VM.Estack().ToArray()
+		}
+		return cs.outcome(c, halted, fault, stack, ic.Notifications)
+	}
+	e, t := cs.e, cs.t
+	tx := e.PrepareInvocationNoSign(t, entry)
+	tx.Signers = realSigners(c.signers)
+	sgs := []neotest.Signer{e.Validator}
+	for i := 0; i < c.nAccs; i++ {
+		sgs = append(sgs, cs.accs[i])
+	}
+	neotest.AddNetworkFee(t, cs.bc, tx, sgs...)
+	e.AddSystemFee(tx, -1)
+	tx.SystemFee += 1_0000_0000
+	for _, s := range sgs {
+		if err := s.SignTx(cs.bc.GetConfig().Magic, tx); err != nil {
+			return "harness-fail:sign"
+		}
+	}
+	e.AddNewBlock(t, tx)
+	aer := e.GetTxExecResult(t, tx.Hash())
+	return cs.outcome(c, aer.VMState == vmstate.Halt, aer.FaultException, aer.Stack, aer.Events)
+}
+
+func (c *chainCell) shape() string {
+	var sb strings.Builder
+	sb.WriteString("E")
+	for _, h := range c.hops {
+		switch h.kind {
+		case hopContract:
+			sb.WriteString(">C")
+		case hopDynamic:
+			sb.WriteString(">D")
+		default:
+			sb.WriteString(">N>C")
+		}
+	}
+	return sb.String()
+}
+
+func runChainCase(o *hx.Out, k int, r *prng.R, cs *chainState) {
+	o.Case(k)
+	c := cs.genCell(r)
+	entry := cs.bodyScript(c, 0)
+	e := cs.env(c, entry)
+	obs := cs.runCell(c, entry)
+	line := fmt.Sprintf("cw %s %s %s", hTok(c.h), e.tok(), signersTok(c.signers))
+	o.Line(line, obs)
+	layer := "chain-vm"
+	if c.realTx {
+		layer = "chain-tx"
+	}
+	judge(o, k, layer, e, c.signers, c.h, obs, func() string { return c.shape() + " " + line })
+	o.Count(layer + ":shape=" + c.shape())
+	if len(c.hops) > 0 && !e.frames[0].rs {
+		o.Count(layer + ":final-without-readstates")
+	}
+	o.Seen(line)
+	if k%1000 == 0 {
+		o.Sample(c.shape() + " " + line + " -> " + obs)
+	}
+}
